@@ -348,7 +348,9 @@ impl Color3f<Hsl> {
         let [h, s, l] = self.0;
         let h = h * 6.0;
 
-        let c = (1.0 - f32::abs(2.0 * l - 1.0)) * s;
+        // Equals (1 - |2l - 1|) * s, but without the cancellation that lets
+        // the chroma exceed 2l for small l and makes `m` below negative
+        let c = if l <= 0.5 { 2.0 * l } else { 2.0 - 2.0 * l } * s;
         let x = c * (1.0 - f32::abs(h % 2.0 - 1.0));
         let m = 1.0 * l - c / 2.0;
 
